@@ -752,7 +752,7 @@ theorem generic_routing_local (self next : Nat) (cparams : List (Bool × Nat)) (
   · simpa using Or.inr h
 
 /-- two functions `f(const int *values, int n)` with a scalar and a rank(1) variant each: the second
-    function's array variant gets its OWN C clone (index 9), not the first function's (index 5) -/
+    function's array variant gets its OWN C clone (index 8), not the first function's (index 4) -/
 example : genericTargets 0 2 [(true, 0), (true, 0)] [[(true, 0), (true, 0)], [(true, 1), (true, 0)]] = [0, 4] ∧
     genericTargets 1 6 [(true, 0), (true, 0)] [[(true, 0), (true, 0)], [(true, 1), (true, 0)]] = [1, 8] := by decide
 
